@@ -145,6 +145,14 @@ def vcf_rec(i, w):
     return ["\t".join([chrom, str(pos), vid, ref, alt, qual, flt, info])], [chrom, pos - 1, vid, ref, alt, qual, flt, info]
 
 
+def bednum_rec(i, w):
+    """BED3 with one-character numeric contig names and starts of very different widths (a short first line of a chunk next to long numbers)"""
+    chrom = str(i % 9 + 1)
+    start = [5, 31200 + i, 7, 1234567 + i, 120][(i + w) % 5]
+    stop = start + [4, 100000, 1][i % 3]
+    return ["\t".join([chrom, str(start), str(stop)])], [chrom, start, stop]
+
+
 def vcfd_rec(i, w):
     """VCF record of a file whose header declares the INFO keys: the info column is a typed table (missing Integer = 0, Float = nan)."""
     lines, exp = vcf_rec(i, w)
@@ -192,6 +200,7 @@ FORMATS = {
     "fasta2":    dict(suffix=".fa", rec=fasta2_exact, exact=True, family="twoline", buffer="TwoLineFastaBuffer", header=""),
     "fastq":     dict(suffix=".fq", rec=fastq_exact, exact=True, family="fastq", header=""),
     "fasta":     dict(suffix=".fa", rec=wrapped_exact, exact=True, family="wrapped", header=""),
+    "bednum":    dict(suffix=".bed", rec=bednum_rec, exact=False, family="delim", header=""),
     "bed6":      dict(suffix=".bed", rec=bed6_rec, exact=False, family="delim", buffer="Bed6Buffer", header=""),
     "bedgraph":  dict(suffix=".bdg", rec=bdg_rec, exact=False, family="delim", header=""),
     "narrowpeak": dict(suffix=".narrowPeak", rec=narrowpeak_rec, exact=False, family="delim", header=""),
